@@ -21,11 +21,19 @@ fn site(name: &str, which: usize) -> (E, Vec<Stmt>) {
         2 => (E::r("Y"), vec![crate::fam::def("Y", E::Seq(vec![E::lit("y"), r]))]),
         3 => (E::Fb(vec![E::lit("first"), r]), vec![]),
         4 => (E::Seq(vec![E::Opt(Box::new(E::lit("-v"))), E::Many(Box::new(r))]), vec![]),
-        _ => (E::r("Y"), vec![crate::fam::def("Y", E::Word(vec![E::lit("k="), r]))]),
+        5 => (E::r("Y"), vec![crate::fam::def("Y", E::Word(vec![E::lit("k="), r]))]),
+        // through a chain of two and three definitions (the reference is not visible from the
+        // call variant's direct references)
+        6 => (E::r("Z"), vec![crate::fam::def("Z", E::Seq(vec![E::lit("z"), E::r("Y")])), crate::fam::def("Y", E::Alt(vec![E::lit("y"), r]))]),
+        7 => (
+            E::Seq(vec![E::lit("s"), E::r("W")]),
+            vec![crate::fam::def("Y", E::Opt(Box::new(r))), crate::fam::def("W", E::r("Z")), crate::fam::def("Z", E::Seq(vec![E::lit("z"), E::r("Y")]))],
+        ),
+        _ => (E::r("Z"), vec![crate::fam::def("Z", E::r("Y")), crate::fam::def("Y", E::Word(vec![E::lit("k="), r]))]),
     }
 }
 
-const NSITES: usize = 6;
+const NSITES: usize = 9;
 
 pub fn run(tier: Tier) -> Report {
     let mut rep = Report::new("C11", tier, "exploration");
@@ -182,7 +190,7 @@ pub fn run(tier: Tier) -> Report {
     rep.cov("product_states", J::i(states as i64));
     rep.cov(
         "rule",
-        J::s("exhaustive: name in {X, PATH, DIRECTORY} x plain definition in {none, command, non-command expression} x all 2^4 subsets of {@bash,@fish,@zsh,@pwsh} command definitions (distinct probe texts) x 6 reference sites (top level, tail of a word, through a definition, under ||, under [] ..., through a definition inside a word) x 4 targets. Per case: full product equivalence with the reference automaton (R1 built in), presence/absence of every probe text in the emitted script, byte-equality of the script with other-shell definitions removed. distinct = distinct (grammar text, target) pairs."),
+        J::s("exhaustive: name in {X, PATH, DIRECTORY} x plain definition in {none, command, non-command expression} x all 2^4 subsets of {@bash,@fish,@zsh,@pwsh} command definitions (distinct probe texts) x 9 reference sites (top level, tail of a word, through a definition, under ||, under [] ..., through a definition inside a word, through chains of two and three definitions, through a chain into a word) x 4 targets. Per case: full product equivalence with the reference automaton (R1 built in), presence/absence of every probe text in the emitted script, byte-equality of the script with other-shell definitions removed. distinct = distinct (grammar text, target) pairs."),
     );
     rep.cov("exhaustive", J::Bool(true));
     rep.cov("samples", J::Arr(samples.items));
